@@ -12,11 +12,39 @@ use constriction::{Queue, Stack};
 
 // ------------------------------------------------------------------ C16: LIFO script
 harness!(stack_lifo_script, unwind = 12, |s| {
-    let mut c = StackCoder::<u8, Vec<u8>>::new();
-    let mut model: u32 = 0; // bit i = i-th written bit
+    // start from an arbitrary pre-filled coder (imported words: any content, any fill level of the last
+    // word), so that a short script crosses word boundaries in both directions
+    let nw = s.usize();
+    s.assume(nw <= 2);
+    let w0 = s.u8();
+    let w1 = s.u8();
+    let mut init: Vec<u8> = Vec::with_capacity(6);
+    let mut model: u32 = 0; // bit i = i-th bit of the content (bottom first)
     let mut n: usize = 0;
+    if nw == 1 {
+        s.assume(w0 != 0);
+        init.push(w0);
+        let top = 7 - w0.leading_zeros() as usize;
+        model = (w0 as u32) & ((1u32 << top) - 1);
+        n = top;
+    } else if nw == 2 {
+        s.assume(w1 != 0);
+        init.push(w0);
+        init.push(w1);
+        let top = 7 - w1.leading_zeros() as usize;
+        model = (w0 as u32) | (((w1 as u32) & ((1u32 << top) - 1)) << 8);
+        n = 8 + top;
+    }
+    let mut c = match StackCoder::<u8, Vec<u8>>::from_compressed(init) {
+        Ok(c) => c,
+        Err(_) => {
+            assert!(false);
+            return;
+        }
+    };
+    assert!(c.len() == n);
     let mut i = 0;
-    while i < 8 {
+    while i < 6 {
         let op = s.bool();
         let bit = s.bool();
         if op {
@@ -40,9 +68,19 @@ harness!(stack_lifo_script, unwind = 12, |s| {
         assert!(c.is_empty() == (n == 0));
         i += 1;
     }
-    vcover!(n == 8);
-    vcover!(n == 7);
-    core::mem::forget(c);
+    // the final export is the serialisation of the reference content plus the end marker
+    let out = c.into_compressed().ok().unwrap();
+    assert!(out.len() == n / 8 + 1);
+    let sealed: u32 = (model & ((1u32 << n) - 1)) | (1u32 << n);
+    let mut j = 0;
+    while j < out.len() {
+        assert!(out[j] == (sealed >> (8 * j)) as u8);
+        j += 1;
+    }
+    vcover!(n == 21);
+    vcover!(nw == 2 && n == 7);
+    vcover!(n == 0);
+    core::mem::forget(out);
 });
 
 // ------------------------------------------------------------------ C16: export / re-import, every fill level
